@@ -327,6 +327,8 @@ M('C13', 'batch-stride-devices', DS, "  return jnp.stack([jnp.stack(x[idx:idx + 
 M('C13', 'batch-b-ceil', DS, "  b = int(n / num_devices)\n", "  b = int((n + num_devices - 1) / num_devices)\n")
 M('C13', 'unbatch-inner-axis', DS, "      for v in jnp.split(v_array, indices_or_sections=b2, axis=0):", "      for v in jnp.split(v_array, indices_or_sections=b2, axis=-1):")
 M('C13', 'replica-index-mismatch', DS, "            all_exponents[current_replica],\n            all_paddings[current_replica],\n            _maybe_ix(all_preconditioners, current_replica),", "            all_exponents[current_replica],\n            all_paddings[0],\n            _maybe_ix(all_preconditioners, current_replica),")
+M('C13', 'prev-precond-replica-0', DS, "            all_paddings[current_replica],\n            _maybe_ix(all_preconditioners, current_replica),", "            all_paddings[current_replica],\n            _maybe_ix(all_preconditioners, 0),")
+M('C13', 'quantized-prev-bucket-replica-0', DS, "           _maybe_ix(all_quantized_precond_bucket_sizes, current_replica),", "           _maybe_ix(all_quantized_precond_bucket_sizes, 0),")
 M('C13', 'gather-other-axis', DS, "        preconditioners = jax.lax.all_gather(preconditioners, batch_axis_name)\n        metrics = jax.lax.all_gather(metrics, batch_axis_name)\n        preconditioners_flat = unbatch(preconditioners)", "        preconditioners = jax.lax.all_gather(preconditioners, 'batch')\n        metrics = jax.lax.all_gather(metrics, batch_axis_name)\n        preconditioners_flat = unbatch(preconditioners)")
 M('C13', 'quantized-precond-diag-slice', DS, "      ] + packed_quantized_diagonals[total - to_pad:]", "      ] + packed_quantized_diagonals[total - to_pad + 1:]")
 TW('C13', 'twin-pad-formula-variable', DS, "    to_pad = -num_statistics % num_devices\n    packed_statistics.extend([", "    to_pad = (-num_statistics) % num_devices\n    packed_statistics.extend([")
